@@ -557,7 +557,25 @@ class StreamResultRouter(StreamResult):
             sink.stopTestRun()
         self._in_run = False
 
-    def status(self, **kwargs):
+    def status(self, *args, **kwargs):
+        # Positional arguments are StreamResult.status' parameters, in order.
+        kwargs.update(
+            zip(
+                (
+                    "test_id",
+                    "test_status",
+                    "test_tags",
+                    "runnable",
+                    "file_name",
+                    "file_bytes",
+                    "eof",
+                    "mime_type",
+                    "route_code",
+                    "timestamp",
+                ),
+                args,
+            )
+        )
         route_code = kwargs.get("route_code", None)
         test_id = kwargs.get("test_id", None)
         if route_code is not None:
